@@ -1177,8 +1177,16 @@ class Parser:
         # Regex literal - when we see / in primary expression context, it's a regex
         if self._check(TokenType.SLASH):
             regex_token = self.lexer.read_regex_literal()
-            self.current = self.lexer.next_token()  # Move past the regex
             pattern, flags = regex_token.value
+            # A regular expression literal that is not valid (or too large) is an error of
+            # the source text, located at the literal, not of the statement that runs it
+            from .values import compile_regexp
+
+            try:
+                compile_regexp(pattern, flags)
+            except JSSyntaxError as e:
+                raise JSSyntaxError(e.message, regex_token.line, regex_token.column)
+            self.current = self.lexer.next_token()  # Move past the regex
             return RegexLiteral(pattern, flags)
 
         raise self._error(f"Unexpected token: {self.current.type.name}")
